@@ -3,7 +3,7 @@
 from common import Result, pmap, compare, enc_value, ERR_CODES, dec_value, canon_py
 
 ID = 'C08'
-COQ_FILES = ['Properties/C08.v', 'Proofs/ErrorFlowProofs.v', 'Proofs/LogicProofs.v', 'Proofs/ValueProofs.v']
+COQ_FILES = ['Properties/C08.v', 'Proofs/ErrorFlowProofs.v', 'Proofs/LogicProofs.v', 'Proofs/ValueProofs.v', 'Proofs/ErrorLiteral.v', 'Proofs/LRfull.v']
 TRUSTED = [
     'modelled, not verified: eager bottom-up, left-to-right evaluation by the grammar actions (ply LR driver), '
     'Python exception propagation, Parser.call_function catching XLError at the call boundary',
